@@ -34,7 +34,7 @@ def jobs(tier, seed):
     out = []
     for i, v in enumerate(D.VALID):
         out.append({'fn': 'program', 'cfg': {'target': i, 'extra': 2 if tier == 'quick' else 3}})
-    for ch in C.chunks(list(range(len(D.INVALID))), 7):
+    for ch in C.chunks([i for i, v in enumerate(D.INVALID) if v[2] != 'Optional'], 7):
         out.append({'fn': 'rejected', 'cfg': {'steps': ch}})
     out.append({'fn': 'colliding_names', 'cfg': {}})
     out.append({'fn': 'program', 'cfg': {'target': D.VALID_INDEX['unit-a1'], 'extra': 0, 'canary': True}, 'canary': True})
